@@ -548,7 +548,7 @@ impl Prop for C19P {
             .collect()
     }
     fn rule(&self) -> String {
-        "scripts with 0-8 test blocks over 1-4 modules (the first child module is sometimes itself called `pkg`), names drawn from a pool shared with functions (collisions on purpose), each test logging a unique tag and ending in accept or reject after 0-2 early accept/reject exits under generated conditions (in if-blocks and while loops); library oracle: run_tests() is Ok iff every block's modelled outcome is accept, every tag is logged exactly once, get_tests() lists every test once, each listed test runs exactly its own body with the modelled result, the order of run_tests equals the order of get_tests and is identical across two compilations, a function calling a test does not compile, functions named like tests keep their behaviour; CLI oracle (about 3% of the cases, real `roto` binary built from /repo): check / test / run / run <fn> / run <missing> exit statuses equal the modelled ones and the entry function's print line appears exactly once. Non-trivial: >= 2 tests in >= 2 modules with mixed outcomes, or a name collision, or a CLI case; distinct by script text".into()
+        "scripts with 0-8 test blocks (plus fixed scripts with up to 512 rejecting blocks) over 1-4 modules, in two of three scripts with helper functions that call each other in a cycle, (the first child module is sometimes itself called `pkg`), names drawn from a pool shared with functions (collisions on purpose), each test logging a unique tag and ending in accept or reject after 0-2 early accept/reject exits under generated conditions (in if-blocks and while loops); library oracle: run_tests() is Ok iff every block's modelled outcome is accept, every tag is logged exactly once, get_tests() lists every test once, each listed test runs exactly its own body with the modelled result, the order of run_tests equals the order of get_tests and is identical across two compilations, a function calling a test does not compile, functions named like tests keep their behaviour; CLI oracle (about 3% of the cases, real `roto` binary built from /repo; the script as a directory with stray sub-directories, and as a single file under four names and four path spellings): check / test / run / run <fn> / run <missing> exit statuses equal the modelled ones and the entry function's print line appears exactly once. Non-trivial: >= 2 tests in >= 2 modules with mixed outcomes, or a name collision, or a CLI case; distinct by script text".into()
     }
     fn assumptions(&self) -> Vec<String> {
         vec!["the CLI's doc and print sub-commands are not driven".into(), "test outcomes are decided by constant conditions, so the model is exact".into()]
